@@ -8,6 +8,7 @@ import (
 	"fmt"
 	"sort"
 	"strings"
+	"unicode/utf8"
 
 	sgbucket "github.com/couchbase/sg-bucket"
 	"pgregory.net/rapid"
@@ -47,6 +48,9 @@ func (q QueryOp) SQL() (string, map[string]any) {
 		// that do not have them
 		s = `SELECT ` + qCols + `, (CASE WHEN json_valid(CAST(body AS TEXT)) THEN CAST(body AS TEXT)->'$.n' END) AS n,` +
 			` (CASE WHEN xattrs IS NOT NULL AND json_valid(CAST(xattrs AS TEXT)) THEN CAST(xattrs AS TEXT)->'$._sync.seq' END) AS s FROM $_keyspace`
+	case "rawbody":
+		// the body projected as it is stored (JSON text inside the row), for documents whose body is JSON
+		s = `SELECT ` + qCols + `, body AS doc FROM $_keyspace WHERE json_valid(CAST(body AS TEXT))`
 	case "noxattrs":
 		// documents without extended attributes: the column is NULL for them (not an empty object)
 		s = `SELECT ` + qCols + ` FROM $_keyspace WHERE xattrs IS NULL`
@@ -73,6 +77,7 @@ type qrow struct {
 	Body []byte
 	X    map[string]string
 	N, S *string // proj: projected body.n / xattrs._sync.seq as JSON text, nil = absent from the row
+	Doc  *string // rawbody: the body as projected into the row
 }
 
 func (r qrow) String() string {
@@ -129,6 +134,8 @@ func expectedQueryRows(r *Run, ci int, q QueryOp) []qrow {
 			for _, id := range q.IDs {
 				ok = ok || id == k
 			}
+		case "rawbody":
+			ok = valid && len(text) == len(st.Body) && utf8.Valid(st.Body)
 		case "noxattrs":
 			ok = len(st.X) == 0
 		case "type":
@@ -152,6 +159,10 @@ func expectedQueryRows(r *Run, ci int, q QueryOp) []qrow {
 		}
 		if ok {
 			row := qrow{ID: k, Body: st.Body, X: st.X}
+			if q.Kind == "rawbody" {
+				t := string(st.Body)
+				row.Doc = &t
+			}
 			if q.Kind == "proj" {
 				if v, has := obj["n"]; valid && has {
 					t := string(mustJSON(v))
@@ -179,7 +190,7 @@ func expectedQueryRows(r *Run, ci int, q QueryOp) []qrow {
 func decodeQueryRow(raw []byte) (qrow, error) {
 	var m struct {
 		ID, Body, Xattrs *string
-		N, S             json.RawMessage
+		N, S, Doc        json.RawMessage
 	}
 	if err := json.Unmarshal(raw, &m); err != nil {
 		return qrow{}, fmt.Errorf("row %s is not JSON: %v", raw, err)
@@ -202,6 +213,10 @@ func decodeQueryRow(raw []byte) (qrow, error) {
 	if m.S != nil {
 		t := string(m.S)
 		row.S = &t
+	}
+	if m.Doc != nil {
+		t := string(m.Doc)
+		row.Doc = &t
 	}
 	if m.Xattrs != nil && *m.Xattrs != "" {
 		xb, err := hex.DecodeString(*m.Xattrs)
@@ -226,7 +241,7 @@ func sameQRow(a, b qrow) bool {
 	if a.ID != b.ID || string(a.Body) != string(b.Body) || len(a.X) != len(b.X) {
 		return false
 	}
-	for _, pr := range [][2]*string{{a.N, b.N}, {a.S, b.S}} {
+	for _, pr := range [][2]*string{{a.N, b.N}, {a.S, b.S}, {a.Doc, b.Doc}} {
 		if (pr[0] == nil) != (pr[1] == nil) || (pr[0] != nil && !jsonEqual([]byte(*pr[0]), []byte(*pr[1]))) {
 			return false
 		}
@@ -455,7 +470,7 @@ func genQuery(rt *rapid.T, r *Run) (Op, bool) {
 	if len(w.Handles) > 1 {
 		op.H = rapid.IntRange(0, len(w.Handles)-1).Draw(rt, "q.h")
 	}
-	q := &QueryOp{Kind: pick(rt, []string{"all", "all", "byid", "like", "in", "count", "type", "ngt", "xseq", "proj", "proj", "noxattrs"}, "q.kind")}
+	q := &QueryOp{Kind: pick(rt, []string{"all", "all", "byid", "like", "in", "count", "type", "ngt", "xseq", "proj", "proj", "noxattrs", "rawbody"}, "q.kind")}
 	switch q.Kind {
 	case "byid":
 		q.Str = pick(rt, append([]string{"zz"}, w.Model.Keys(op.C)...), "q.id")
